@@ -53,19 +53,6 @@ RelaxedOutcomes(i, o) ==
   THEN {[st |-> m, res |-> ResOf(o)]}
   ELSE {}
 
-(* The layered cache (target "ml") looks a key up layer by layer while a put stores into the first layer and then
-   takes the key out of the slower ones: a lookup that overlaps a put of the same key may find the key in
-   neither (it passed the first layer before the put and reaches the second after it); a remove walks the layers
-   the same way and may then find (and remove) nothing.  A cache may miss; the monitor allows exactly this miss
-   and nothing else - values, removals, failures and the books are judged as
-   for every other target. *)
-LayeredMiss(i, o) ==
-  IF /\ Rec[i].target = "ml" /\ o.op \in {"get", "contains", "remove"} /\ ResOf(o) \in {I(0), B(FALSE)}
-     /\ \E b \in 1..Len(Ops(i)) : /\ Ops(i)[b].op \in {"put", "put_exp"} /\ Ops(i)[b].k = o.k
-                                   /\ Overlap(Ops(i)[b], o) /\ ~(Ops(i)[b].t = o.t /\ Ops(i)[b].i = o.i)
-  THEN {[st |-> m, res |-> ResOf(o)]}
-  ELSE {}
-
 TInit == /\ r \in 1..Len(Rec)
          /\ done = {} /\ m = Empty(Keys(r))
          /\ relax \in {{}} \cup (IF Applicable(r) = {} THEN {} ELSE {Applicable(r)})
@@ -73,7 +60,7 @@ TInit == /\ r \in 1..Len(Rec)
 TNext ==
   /\ \E o \in 1..Len(Ops(r)) :
        /\ Eligible(Ops(r), done, o)
-       /\ \E x \in Outcomes(m, Ops(r)[o]) \cup RelaxedOutcomes(r, Ops(r)[o]) \cup LayeredMiss(r, Ops(r)[o]) :
+       /\ \E x \in Outcomes(m, Ops(r)[o]) \cup RelaxedOutcomes(r, Ops(r)[o]) :
             x.res = ResOf(Ops(r)[o]) /\ m' = x.st
        /\ done' = done \cup {o}
   /\ UNCHANGED <<r, relax>>
